@@ -27,7 +27,7 @@ def read_view(kind, obj):
     """everything the object reports, as plain ints"""
     if kind == "node":
         return {"x": ints([obj.x]), "ty": ints([obj.type]), "id": [int(obj.id)],
-                "idxok": int(obj["x"] == obj.x and ("level" not in obj.attach.ndata or obj["level"] == obj.attach.ndata["level"][obj.idx])), "segs": []}
+                "idxok": int(obj[obj.names.x] == obj.x and ("level" not in obj.attach.ndata or obj["level"] == obj.attach.ndata["level"][obj.idx])), "segs": []}
     if kind == "nodes":
         return {"x": ints([n.x for n in obj]), "ty": ints([n.type for n in obj]), "id": [int(n.id) for n in obj], "idxok": 1, "segs": []}
     x, ty = ints(obj.x()), ints(obj.type())
@@ -36,7 +36,7 @@ def read_view(kind, obj):
     if n:
         ok &= int(round(float(obj[-1].x))) == x[-1] and int(round(float(obj[0].x))) == x[0] and int(round(float(obj[-n].x))) == x[0]
         ok &= ints([nd.x for nd in obj[1:]]) == x[1:] and ints([nd.x for nd in obj[:-1]]) == x[:-1] and ints([nd.x for nd in obj]) == x
-        ok &= ints(obj["x"]) == x and ints(obj.xyz()[:, 0]) == x and len(obj.id()) == n
+        ok &= ints(obj[obj.names.x]) == x and ints(obj.xyz()[:, 0]) == x and len(obj.id()) == n
         kept = list(obj)                       # handles obtained by iteration and read only afterwards (each refers to its own node)
         ok &= ints([h.x for h in kept]) == x and ints([h.type for h in kept]) == ty
         pairs = list(zip(obj, obj[1:]))
@@ -57,7 +57,7 @@ def nav(t):
     """what the node handles of a tree report about their neighbours: parent id (-1: none), the x the parent handle reports, children ids, and the node's
     own x asked by column name from the tree"""
     out = []
-    col = t["x"]
+    col = t[t.names.x]
     for i in range(len(t)):
         nd = t.node(i)
         p = nd.parent()
@@ -79,9 +79,17 @@ def execute(c):
         ib = np.zeros((n, 2), dtype=np.int32); ib[:, 0] = ty0
         eb = np.zeros((n, 2), dtype=e0.dtype); eb[:, 1] = e0
         xs0, ty0, e0 = fb[:, 1], ib[:, 0], eb[:, 1]
-    t0 = Tree(n, source=lib.SRC, id=np.arange(n, dtype=np.int32), pid=np.array(P, dtype=np.int32), x=xs0, type=ty0, level=e0)
-    if lib.vid(c) % 3 == 1 and t0.ndata["x"].flags["C_CONTIGUOUS"]:
-        t0.ndata["x"], t0.ndata["type"] = xs0, ty0          # the constructor made them contiguous: install the strided columns directly
+    if lib.vid(c) % 4 == 3:
+        # a tree whose coordinate and radius columns carry user-chosen names (views and detached copies answer x() / r() all the same)
+        from swcgeom.core.swc_utils import SWCNames
+        nm = SWCNames(x="px", r="radius")
+        t0 = Tree(n, source=lib.SRC, names=nm, id=np.arange(n, dtype=np.int32), pid=np.array(P, dtype=np.int32), px=xs0, type=ty0, level=e0)
+        XK = "px"
+    else:
+        t0 = Tree(n, source=lib.SRC, id=np.arange(n, dtype=np.int32), pid=np.array(P, dtype=np.int32), x=xs0, type=ty0, level=e0)
+        XK = "x"
+    if lib.vid(c) % 3 == 1 and t0.ndata[XK].flags["C_CONTIGUOUS"]:
+        t0.ndata[XK], t0.ndata["type"] = xs0, ty0          # the constructor made them contiguous: install the strided columns directly
     trees, views = [t0], []       # views: (kind, object, origin_ids-for-detached)
     steps = []
     for act in hist:
